@@ -230,6 +230,8 @@ func (g *gen) op(depth int, allowPub bool) Op {
 			return Op{K: Clear, T: t}
 		case x < 81:
 			return Op{K: ClearAll}
+		case x < 82 && g.store:
+			return Op{K: CancelSub, Class: r.IntN(4)}
 		case x < 87:
 			return Op{K: Has, T: t}
 		case x < 98:
